@@ -448,7 +448,10 @@ class DefaultParser(Parser):
         if isinstance(input, Sentence):
             return input
         with ParseContext(input, self.table, self.predicates) as context:
-            return self._read(context)
+            try:
+                return self._read(context)
+            except RecursionError:
+                raise ParseError('Input is nested too deeply') from None
 
     _methodmap = MapProxy({
         Operator: '_read_operated',
